@@ -64,8 +64,8 @@ def _run_cases(cases: list[dict[str, Any]]) -> list[dict[str, Any]]:
 
 def _base_key(case: dict[str, Any]) -> str:
     c = case["cfg"]
-    return json.dumps([case["den"], c.get("max_retries"), c.get("defaults", False), sorted(case["ecu"]["sessions"])],
-                      sort_keys=True)
+    return json.dumps([case["den"], c.get("max_retries"), c.get("timeout"), c.get("defaults", False),
+                       sorted(case["ecu"]["sessions"])], sort_keys=True)
 
 
 def _validate(traces: list[dict[str, Any]], sweeps: list[list[list[int]]], rep: Report | None
@@ -156,14 +156,14 @@ def _from_behaviour(st: dict[str, Any], n: int) -> tuple[dict[str, Any], dict[st
 
 
 def _sim_start(ex: ThreadPoolExecutor, tier: str, seed: int) -> list[Future[Any]]:
-    nsim = 10 if tier == "quick" else 150
+    nsim = 10 if tier == "quick" else 100
     return [ex.submit(tlc.simulate_behaviours, "MC_MemoryScan", f"MC_MemoryScan_{cfg}.cfg", num=nsim, depth=60,
                       seed=seed + 11 + j, timeout=1800) for j, cfg in enumerate(("simA", "simB"))]
 
 
 def _spec_to_code(rep: Report, tier: str, futs: list[Future[Any]]) -> list[tuple[dict[str, Any], dict[str, Any]]]:
     out: list[tuple[dict[str, Any], dict[str, Any]]] = []
-    nsim = 10 if tier == "quick" else 150
+    nsim = 10 if tier == "quick" else 100
     for f in futs:
         _res, behs = f.result()
         for n, b in enumerate(behs):
@@ -325,11 +325,21 @@ def run(tier: str, seed: int) -> Report:
     rep.extra["exhaustive_spaces"] = (
         "thorough: all 5^5 = 3125 abstract models (5 answer classes on the 5 marker addresses 0x00, 0x02, 0xFF, 0x0100, "
         "0xFF00000000) and the full cross product drop position x check_session n x session read mode x session-change "
-        "budget x ECUReset accepted/refused (1680 cases) of harness/x05_cases.py; quick: every 40th / 25th of them; "
+        "budget x ECUReset accepted/refused (1680 cases) of harness/x05_cases.py; quick: every 50th / 31st of them; "
         "everything else (random models) seeded samples")
-    # ---- 5. binding self-tests
-    _selftest(rep, traces, uniq, sweeps, verdicts)
+    # ---- 5. binding self-tests (they need accepted traces: on a tree that breaks the property everywhere the
+    #         violations are reported and the self-test is skipped rather than turned into a machinery failure)
+    try:
+        _selftest(rep, traces, uniq, sweeps, verdicts)
+    except NoAcceptedTrace as e:
+        if not rep.violations:
+            raise Machinery(str(e)) from e
+        rep.extra["binding_selftest"] = f"skipped: {e}"
     return rep
+
+
+class NoAcceptedTrace(Exception):
+    pass
 
 
 def _selftest(rep: Report, traces: list[dict[str, Any]], cases: list[dict[str, Any]], sweeps: list[list[list[int]]],
@@ -344,7 +354,7 @@ def _selftest(rep: Report, traces: list[dict[str, Any]], cases: list[dict[str, A
         for i, t in enumerate(traces):
             if verdicts[i] == "ok" and t["done_kind"] == "ok" and pred(t, cases[i]):
                 return t
-        raise Machinery("no accepted trace to run a binding self-test on")
+        raise NoAcceptedTrace("no accepted trace to run a binding self-test on")
 
     plain = pick(lambda t, c: not c["ecu"]["drop"] and t["C"]["check"] == 0
                  and any(e["k"] == "res" and e["w"] == "resp" for e in t["ev"])
@@ -406,8 +416,10 @@ def _selftest(rep: Report, traces: list[dict[str, Any]], cases: list[dict[str, A
     n_["ev"] = [x for x in n_["ev"] if not (x["k"] == "q" and x["p"] == [0x22, 0xF1, 0x86])]
     muts.append(("session reads removed", n_, "M6/more-than-n"))
     # a mutant of the harness's own fake: TLC must notice that the fake left its model (M0)
-    mc = next(c for i, c in enumerate(cases) if verdicts[i] == "ok" and traces[i]["done_kind"] == "ok"
-              and c["origin"] == "abstract")
+    mc = next((c for i, c in enumerate(cases) if verdicts[i] == "ok" and traces[i]["done_kind"] == "ok"
+               and c["origin"] == "abstract"), None)
+    if mc is None:
+        raise NoAcceptedTrace("no accepted abstract-model trace to run the fake mutant on")
     mt = run_case(mc, mutant="fake-answers-positive-outside-model")
     mt["done_kind"] = _norm_done(mt["done"])
     mt["sw"] = traces[cases.index(mc)]["sw"]
